@@ -188,6 +188,11 @@ func (w *MWorld) applyCond(op Op, self string, el ElemFn, wt WorldText) []Alt {
 			m.Cat = op.Args[0].S
 		}
 		return one(n, self)
+	case "SetAuxiliary":
+		if !ro {
+			m.Aux = auxModel(op.Args)
+		}
+		return one(n, self)
 	case "SetLogLevel":
 		if !ro {
 			m.Log = logShift(m.Log, op.Args)
@@ -284,6 +289,14 @@ func cmpCond(x *Exec, i int, m *MCond, k histKeys) string {
 	}
 	if g := c.LogLevels(); g != logString(m.Log) {
 		return fmt.Sprintf("LogLevels()=%q, expected %q", g, logString(m.Log))
+	}
+	if g := w.describe(c.Auxiliary()); g != m.Aux && m.Aux != wild {
+		return fmt.Sprintf("Auxiliary()=%s, expected %s", g, m.Aux)
+	}
+	if f := dumpField(w.dump(i), "enc"); f != "" {
+		if want := encText(m.Enc); normEnc(f) != normEnc(want) {
+			return fmt.Sprintf("encapsulation list is %s, expected %s", f, want)
+		}
 	}
 	return ""
 }
